@@ -229,6 +229,54 @@ def check(run):
             oracle_fail.append((cfg, l, "a copy fails only for lack of slots and leaves a truncation of the source (whole elements, whole members) in the destination", o[:200]))
         elif okc == "false" and int(rem) + cb_slots(p) > b:
             oracle_fail.append((cfg, l, "no more slots in use or free than there were", o[:200]))
+    # --- reading a document when only j pool blocks can be had (Model/CopyBudget.v read_budget): code and document = the model's
+    import gen_doc as _gd
+    def _tod(v):
+        if v is None or v is True or v is False: return v
+        if isinstance(v, int): return ("i", v)
+        if isinstance(v, str): return ("s", v.encode())
+        if isinstance(v, list): return [_tod(x) for x in v]
+        return ("o", [(("s", k.encode()), _tod(x)) for k, x in v.items()])
+    for rdefs in ({"ARDUINOJSON_POOL_CAPACITY": 3, "ARDUINOJSON_INITIAL_POOL_COUNT": 2}, {"ARDUINOJSON_POOL_CAPACITY": 5, "ARDUINOJSON_INITIAL_POOL_COUNT": 1}):
+        cap = rdefs["ARDUINOJSON_POOL_CAPACITY"]
+        implr = vlib.need_harness("doc_h", cfg, rdefs)
+        ml, il, meta = [], [], []
+        for _ in range(600 if thorough else 90):
+            text = cb_value(rnd)
+            v = _json.loads(text)
+            need = cb_slots(v)
+            if need > 60:
+                continue
+            for fmt_, data in (("J", text.encode()), ("M", _gd.mp_encode(_tod(v), rnd))):
+                for j in range(0, need // cap + 2):
+                    il.append(f"DSB {fmt_} {j} {hx(data)}")
+                    ml.append(f"DSB {fmt_} {j * cap} {hx(data)}")
+                    meta.append((v, need, j * cap))
+        mo_, mcr = vlib.run_sharded(model, ml, None, 900, ["CFG " + cfg])
+        if mcr:
+            raise vlib.Broken("model driver crashed: " + mcr[:300])
+        io_, icr = vlib.run_sharded(implr, il, None, 900, ["CFG " + cfg])
+        if icr:
+            k = io_.index("<crash>") if "<crash>" in io_ else 0
+            run.violation(f"C05: library crashed while reading with a slot budget ({rdefs}): {icr[:200]}", dict(kind="input", cfg=cfg, defines=rdefs, harness_src="doc_h", lines=[il[k]], observed=icr[-2000:]))
+        for l, m, o, (v, need, b) in zip(il, mo_, io_, meta):
+            run.count(("dsb", cap, l))
+            if o == "<crash>":
+                continue
+            body = o.split(" cap=")[0]
+            if any(t in o for t in ("NOT-FLAGGED", "FLAGGED-THOUGH-OK", "NOT-REUSABLE", "LEAK-OR-MISUSE")):
+                oracle_fail.append((cfg, l, f"NoMemory sets overflowed(); the document is reusable after clear(); every block returned [{rdefs}]", o[:200])); continue
+            code, d = body.split(" ")[:2]
+            p = _plain(_pd(d))
+            if code == "Ok" and (p != v or b < need):
+                oracle_fail.append((cfg, l, f"Ok means the whole document ({need} slots needed, {b} available) [{rdefs}]", o[:200]))
+            elif code == "NoMemory" and b >= need:
+                oracle_fail.append((cfg, l, f"NoMemory only for lack of slots ({need} needed, {b} available) [{rdefs}]", o[:200]))
+            elif code not in ("Ok", "NoMemory"):
+                oracle_fail.append((cfg, l, "Ok or NoMemory", o[:200]))
+            elif body != m:
+                all_mism.append((cfg, (0, l, m, body)))
+        run.cov["disagreements_checked"] += len(il)
     run.cov["rule"] = ("[deserialization] %d JSON texts and %d MessagePack inputs (C01 / C09 generators, filters on 30%%) x every single-failure position and every fail-from "
                        "position (%d failing runs, 2 geometries): no crash or sanitizer report; the result is the failure-free one or NoMemory with overflowed() set; "
                        "the document can be traversed, measured and serialized; clear() returns every block; reusable; nothing leaks or is released twice; " % (len(texts), len(mps), ndes_runs))
@@ -238,7 +286,7 @@ def check(run):
                        "does not claim success; handles unrelated to its target keep their value; after the history clear() returns every block, the document works again, "
                        "destruction leaks nothing, no block is released twice; distinct = distinct (geometry, history, schedule)" % (nh, total_runs))
     run.assumptions += ["a shrinking reallocate never fails (as the property states)", "level: fault enumeration over generated scenarios; the theorems are about the slot allocator model (PoolProofs)"]
-    run.cov["rule"] += "; [copy with a slot budget] nested values x every budget 0..needed+1: result, destination, free slots afterwards = Model/CopyBudget.v; success = complete, failure = truncation, flagged"
+    run.cov["rule"] += "; [copy with a slot budget] nested values x every budget 0..needed+1: result, destination, free slots afterwards = Model/CopyBudget.v; success = complete, failure = truncation, flagged; [reading with a slot budget] the same values as JSON and MessagePack into a document whose allocator grants j pool blocks only (2 pool capacities): code and document = read_budget"
     jsonchecks.finish_standard(run, "C05", ok, info, oracle_fail, all_mism, harness="hist_h")
 
 def replay(rp):
